@@ -33,13 +33,17 @@ T == Batch[tid]
 Ev == T.ev[l]
 Exact == T.kind = "exact"
 
-OpNames == {"div", "grad", "lap", "neumann", "covgrad", "covlap", "covgrad2", "covlap2"}
+OpNames == {"div", "grad", "lap", "neumann", "covgrad", "covlap", "covgrad_r", "covlap_r", "covgrad2", "covlap2"}
+Slot(op, path) == IF path = "refresh" THEN op \o "_r" ELSE op     \* built from scratch / refreshed in place
 None == <<>>
 
 \* the mesh of the trace: an instance of the FVOps universe, or explicit
 TM == IF T.mi > 0 THEN Instance(T.mi, T.pat) ELSE T.mesh
 SameMesh(A, B) == /\ A.n = B.n /\ A.edges = B.edges /\ A.bidx = B.bidx /\ A.pos = B.pos /\ A.dir = B.dir
                   /\ A.len = B.len /\ A.dual = B.dual /\ A.area = B.area
+
+\* a matrix with a bottom entry (denominator 0: not a small rational) matches nothing and is not kept for the identities
+Storable(m) == IF \A i \in DOMAIN m : \A k \in DOMAIN m[i] : m[i][k][3] > 0 THEN m ELSE None
 
 SpecMat(M, op, q) == CASE op = "div" -> Div(M) [] op = "grad" -> Grad(M) [] op = "lap" -> Lap(M)
                        [] op = "neumann" -> NeumannB(M) [] op = "covgrad" -> CovGrad(M, q)
@@ -63,7 +67,7 @@ TOp == /\ IsEv("op") /\ Exact /\ chi = None
        /\ Ev.op \in {"div", "grad", "lap", "neumann", "covgrad", "covlap"}
        /\ \A M \in {TM} : Require("CodeMatchesSpec:" \o Ev.op, Ev.m = SpecMat(M, Ev.op, Ev.q))
        /\ IF Ev.src = "code"
-          THEN /\ cm' = [cm EXCEPT ![Ev.op] = Ev.m]
+          THEN /\ cm' = [cm EXCEPT ![Slot(Ev.op, Ev.path)] = Storable(Ev.m)]
                /\ IF Ev.op \in {"covgrad", "covlap"} THEN (cq = None \/ cq = Ev.q) /\ cq' = Ev.q ELSE UNCHANGED cq
           ELSE UNCHANGED <<cm, cq>>
        /\ Tag(<<Ev.op, Ev.src, Ev.path>>) /\ UNCHANGED <<chi, js>>
@@ -80,11 +84,11 @@ TGauge == /\ IsEv("gauge") /\ Exact /\ chi = None /\ cq # None
           /\ chi' = Ev.c /\ Tag(<<"gauge", "-", "-">>) /\ UNCHANGED <<cm, cq, js, bad>>
 
 \* covariant operators produced by the code for the transformed vector potential
-TGaugedOp == /\ IsEv("gop") /\ Exact /\ chi # None /\ Ev.op \in {"covgrad", "covlap"} /\ cm[Ev.op] # None
+TGaugedOp == /\ IsEv("gop") /\ Exact /\ chi # None /\ Ev.op \in {"covgrad", "covlap"} /\ cm[Ev.op \o "_r"] # None
              /\ \A M \in {TM} :
                   /\ Ev.q = GaugeQ(M, cq, chi)
                   /\ Require("CodeMatchesSpec:gauged " \o Ev.op, Ev.m = SpecMat(M, Ev.op, Ev.q))
-             /\ cm' = [cm EXCEPT ![Ev.op \o "2"] = Ev.m]
+             /\ cm' = [cm EXCEPT ![Ev.op \o "2"] = Storable(Ev.m)]
              /\ Tag(<<"gop", Ev.op, Ev.path>>) /\ UNCHANGED <<cq, chi, js>>
 
 \* supercurrent of the transformed order parameter in the transformed potential
@@ -111,10 +115,10 @@ Needed(group) == CASE group = "scalar" -> ScalarFacts [] group = "cov" -> CovFac
 TFacts == /\ IsEv("facts") /\ ~Exact /\ Ev.group \in {"scalar", "cov", "gauge"}
           /\ Needed(Ev.group) \subseteq DOMAIN Ev.facts
           /\ \A k \in DOMAIN Ev.facts : Ev.facts[k] \in Nat
-          /\ Require("FloatFactsWithinTolerance", \A k \in DOMAIN Ev.facts : Ev.facts[k] <= FloatTol)
-          /\ (Ev.group = "scalar" =>
-                /\ T.comps >= 1
-                /\ Require("KernelIsConstants", Ev.kdim = T.comps))
+          /\ (Ev.group = "scalar" => T.comps >= 1)
+          /\ Require(IF \A k \in DOMAIN Ev.facts : Ev.facts[k] <= FloatTol THEN "KernelIsConstants" ELSE "FloatFactsWithinTolerance",
+                     /\ \A k \in DOMAIN Ev.facts : Ev.facts[k] <= FloatTol
+                     /\ (Ev.group = "scalar" => Ev.kdim = T.comps))
           /\ Tag(<<"facts", Ev.group, "-">>) /\ UNCHANGED <<cm, cq, chi, js>>
 
 TNext == TOp \/ TJs \/ TGauge \/ TGaugedOp \/ TGaugedJs \/ TGeom \/ TFacts
@@ -154,8 +158,22 @@ TrKernelIsConstants == (AtEnd /\ Exact /\ Have({"lap"})) =>
                                           /\ (T.heavy => KernelOnVectorsOn(M, cm["lap"]))
                                           /\ ((T.heavy /\ M.n <= 6) => KernelIsConstantsByMinorsOn(M, cm["lap"]))
 TrGradExactOnLinear == (AtEnd /\ Exact /\ Have({"grad"})) => \A M \in {TM} : GradExactOnLinearOn(M, cm["grad"])
-TrCovLapHermitian == (AtEnd /\ Exact /\ Have({"covlap"})) => \A M \in {TM} : WeightedHermitianOn(M, cm["covlap"])
-TrGaugeCovariant == (AtEnd /\ Exact /\ chi # None /\ Have({"covgrad", "covlap", "covgrad2", "covlap2"})) =>
-                       \A M \in {TM} : /\ GradCovariantOn(M, cm["covgrad"], cm["covgrad2"], chi)
-                                       /\ LapCovariantOn(M, cm["covlap"], cm["covlap2"], chi)
+TrCovLapHermitian == (AtEnd /\ Exact) => \A M \in {TM} : \A o \in {"covlap", "covlap_r", "covlap2"} :
+                                                cm[o] # None => WeightedHermitianOn(M, cm[o])
+TrGaugeCovariant == (AtEnd /\ Exact /\ chi # None /\ Have({"covgrad_r", "covlap_r", "covgrad2", "covlap2"})) =>
+                       \A M \in {TM} : /\ GradCovariantOn(M, cm["covgrad_r"], cm["covgrad2"], chi)
+                                       /\ LapCovariantOn(M, cm["covlap_r"], cm["covlap2"], chi)
+
+\* diagnosis (Strict = FALSE): the names of all clauses that are false at the end of a trace
+FailingClauses ==
+  bad \cup (IF TrLapIsDivGrad THEN {} ELSE {"LapIsDivGrad"})
+      \cup (IF TrWeightedDivSumsToZero THEN {} ELSE {"WeightedDivSumsToZero"})
+      \cup (IF TrBoundaryFluxIntegrates THEN {} ELSE {"BoundaryFluxIntegrates"})
+      \cup (IF TrWeightedLapSymmetric THEN {} ELSE {"WeightedLapSymmetric"})
+      \cup (IF TrWeightedLapNegSemiDef THEN {} ELSE {"WeightedLapNegSemiDef"})
+      \cup (IF TrKernelIsConstants THEN {} ELSE {"KernelIsConstants"})
+      \cup (IF TrGradExactOnLinear THEN {} ELSE {"GradExactOnLinear"})
+      \cup (IF TrCovLapHermitian THEN {} ELSE {"CovLapHermitian"})
+      \cup (IF TrGaugeCovariant THEN {} ELSE {"GaugeCovariant"})
+Report == AtEnd => PrintT(<<"CLAUSES", tid, FailingClauses>>)
 =============================================================================
